@@ -13,6 +13,14 @@ class InjectedFault(Exception):
     """the private exception type raised by instrumented sources / callables"""
 
 
+# private subclasses of the exception families a failing source or callable realistically raises: an except
+# clause inside petl that is too wide (or meant for something else) cannot hide behind one exception type
+FAULT_TYPES = {'InjectedFault': InjectedFault}
+for _b in (TypeError, ValueError, KeyError, IndexError, AttributeError, RuntimeError, OSError, UnicodeError, ArithmeticError, LookupError,
+           AssertionError, NotImplementedError, EOFError, MemoryError):
+    FAULT_TYPES[_b.__name__] = type('Injected' + _b.__name__, (_b,), {})
+
+
 # ---------------------------------------------------------------------------
 # sources
 
@@ -64,10 +72,11 @@ class FailingSource(object):
     fail_at is None never fails.  Every iterator fails at the same place unless
     only_pass is given (1-based pass number that fails)."""
 
-    def __init__(self, rows, fail_at=None, only_pass=None):
+    def __init__(self, rows, fail_at=None, only_pass=None, exc=None):
         self.rows = rows
         self.fail_at = fail_at
         self.only_pass = only_pass
+        self.exc = exc or InjectedFault
         self.passes = 0
         self.raised = 0
 
@@ -80,11 +89,11 @@ class FailingSource(object):
         for i, r in enumerate(self.rows):
             if active and i == self.fail_at:
                 self.raised += 1
-                raise InjectedFault('source failed at row %d' % i)
+                raise self.exc('source failed at row %d' % i)
             yield r
         if active and self.fail_at == len(self.rows):
             self.raised += 1
-            raise InjectedFault('source failed at exhaustion')
+            raise self.exc('source failed at exhaustion')
 
 
 # ---------------------------------------------------------------------------
